@@ -77,7 +77,7 @@ Definition sat_str (w : world) (val : option pystr) (len mnl mxl : option intv) 
   end.
 
 (* the length of the list visit_list returns when elements are declared: n concrete
-   elements, padded up to len when a `...` marker says where *)
+   elements, padded up to the target (len, else min_len) when a `...` marker says where *)
 Definition padded_len {A} (es : list (option A)) (len : option intv) : Z :=
   let n := zlen (strip es) in
   match len with
@@ -104,7 +104,7 @@ Fixpoint sat (w : world) (s : schema) {struct s} : Prop :=
       match es with
       | Some es' =>
           ty = None /\
-          len_ok (padded_len es' len) len mnl mxl /\
+          len_ok (padded_len es' (pad_target len mnl)) len mnl mxl /\
           fold_right (fun c acc => c /\ acc) True
                      (map (fun o => match o with Some e => sat w e | None => True end) es')
       | None =>
